@@ -32,6 +32,7 @@ Readback == <<[op |-> "ItemGet", ring |-> 0, index |-> 2], [op |-> "ItemGet", ri
               [op |-> "ItemGet", ring |-> 0, index |-> 0, hi |-> 1], [op |-> "ItemGet", ring |-> 0, index |-> 1, hi |-> 5],
               [op |-> "Count", ring |-> 0], [op |-> "Find", ring |-> 0, kid |-> "k1"],
               [op |-> "Find", ring |-> 0, kid |-> "k2"], [op |-> "Find", ring |-> 0, kid |-> "k"], [op |-> "Find", ring |-> 0, kid |-> "kbad"],
+              [op |-> "Find", ring |-> 0, kid |-> "k1x"], [op |-> "Find", ring |-> 0, kid |-> "K1"], [op |-> "Find", ring |-> 0, kid |-> ""],
               [op |-> "ErrAny", ring |-> 0], [op |-> "ItemGet", ring |-> 0, index |-> 1], [op |-> "ItemGet", ring |-> 0, index |-> 2]>>
 
 Rec(op) == hist' = hist \o <<op>> \o Readback
